@@ -163,8 +163,8 @@ def proofShape (citable : List String) (pf : List String) : Bool :=
       | none => false
   | _ => false
 
-/-- the database `mdb` with the theorem `target` is a database of the supported fragment -/
-def FragmentShape (mdb : MDb) (target : String) : Bool :=
+/-- the database `mdb`, WITHOUT `#Notation` statements, with the theorem `target` is a database of the supported fragment -/
+def CoreShape (mdb : MDb) (target : String) : Bool :=
   let K := constsOf mdb
   let F := floatsOf mdb
   let fs := F.map (·.2)
@@ -178,6 +178,116 @@ def FragmentShape (mdb : MDb) (target : String) : Bool :=
   (match mdb.filter isProv with
    | [.prov l _ pf] => l == target && proofShape (F.map (·.1) ++ axLabelsOf mdb) pf
    | _ => false)
+
+/-! ## declared notations (`sugarShape`)
+
+`l $a #Notation ( n v₁ … vₖ ) BODY $.` / `l $a #Notation n BODY $.`:
+* `n` has exactly one constructor axiom `… $a #Pattern ( n v₁ … vₖ )`, BEFORE the statement, over the same variables in the same
+  order (pairwise different, with `$f`: `syntaxShape`); one `#Notation` statement per head;
+* `BODY` is a term over `v₁ … vₖ` (no other variable), the constants and `\imp` / `\app`; of the heads of `#Notation` statements it
+  mentions only those whose `#Notation` statement comes EARLIER (so not `n` itself): `MetamathConverter._top_down` imports the
+  `#Notation` statements in database order and converts each body in the scope of the notations imported so far — a later one stays an
+  opaque symbol inside the body but is expanded where it is written directly (finding KF-C16-forward-notation);
+* the `#Notation` statements come in the order of the constructor axioms of their heads (the model's `DB.notTab` imports the
+  notations in the order of the constructor entries);
+* everywhere in the database (`$a`, `$e`, `$p`, bodies) a head `n` is applied to exactly `k` arguments (with fewer the closure built
+  by `_to_pattern` raises `IndexError`, with more it ignores the rest);
+* all labels, those of the `#Notation` statements included, are pairwise different; the proof cites no `#Notation` statement
+  (`CoreShape` of the database without them: `proofShape`);
+* without its `#Notation` statements the database is a database of the fragment (`CoreShape`). -/
+
+/-- `… $a #Pattern ( s a₁ … aₙ )`: head and arguments -/
+def ctorHeadOf : MStmt → Option (String × List MTerm)
+  | .ax _ [.app tc [], .app s args] => if tc = "#Pattern" then some (s, args) else none
+  | _ => none
+
+mutual
+/-- the heads of the applications of a term -/
+def headsOf : MTerm → List String
+  | .mv _ => []
+  | .app s args => s :: headsOfL args
+def headsOfL : List MTerm → List String
+  | [] => []
+  | t :: ts => headsOf t ++ headsOfL ts
+end
+
+mutual
+/-- the declared notations are applied to as many arguments as they have variables; `ar`: (head, number of variables) -/
+def arityShape (ar : List (String × Nat)) : MTerm → Bool
+  | .mv _ => true
+  | .app s args => (match ar.lookup s with | some k => args.length == k | none => true) && aritiesShape ar args
+def aritiesShape (ar : List (String × Nat)) : List MTerm → Bool
+  | [] => true
+  | t :: ts => arityShape ar t && aritiesShape ar ts
+end
+
+def stmtArity (ar : List (String × Nat)) : MStmt → Bool
+  | .ess _ ts => aritiesShape ar ts
+  | .ax _ ts => aritiesShape ar ts
+  | .prov _ ts _ => aritiesShape ar ts
+  | .block ss => ss.all fun
+      | .ess _ ts => aritiesShape ar ts
+      | .ax _ ts => aritiesShape ar ts
+      | _ => true
+  | _ => true
+
+/-- the `#Notation` statements in their places: `cs` = (head, variables) of the constructor axioms so far, `seen` = the heads of the
+`#Notation` statements so far; `heads` = the heads of all `#Notation` statements of the database -/
+def sugarShape (K heads : List String) : List (String × List String) → List String → MDb → Bool
+  | _, _, [] => true
+  | cs, seen, st :: r =>
+      match sugarOf st with
+      | some (_, n, args, body) =>
+          (match mvNames args with
+           | some vs => (cs.filter (·.1 == n)).map (·.2) == [vs] && termShape K vs body
+           | none => false) &&
+          (headsOf body).all (fun s => seen.contains s || !heads.contains s) &&
+          sugarShape K heads cs (seen ++ [n]) r
+      | none =>
+          match ctorHeadOf st with
+          | some (s, args) => sugarShape K heads (cs ++ [(s, (mvNames args).getD [])]) seen r
+          | none => sugarShape K heads cs seen r
+
+/-- the database `mdb` with the theorem `target` is a database of the supported fragment -/
+def FragmentShape (mdb : MDb) (target : String) : Bool :=
+  let K := constsOf mdb
+  let sugars := sugarsOf mdb
+  let heads : List String := sugars.map (·.2.1)
+  let ctorHeads : List String := (mdb.filterMap ctorHeadOf).map (·.1)
+  CoreShape (coreOf mdb) target &&
+  decide (labelsOf mdb).Nodup &&
+  decide heads.Nodup &&
+  heads.all (fun n => (ctorHeads.filter (· == n)).length == 1) &&
+  ctorHeads.filter heads.contains == heads &&
+  sugarShape K heads [] [] mdb &&
+  mdb.all (stmtArity (sugars.map fun sg => (sg.2.1, sg.2.2.1.length)))
+
+/-- a database without `#Notation` statements: `FragmentShape` says what `CoreShape` says … -/
+theorem coreShape_of_sugarFree {mdb : MDb} {target : String} (h : FragmentShape mdb target = true) (hs : sugarFree mdb = true) :
+    CoreShape mdb target = true := by
+  simp only [FragmentShape, Bool.and_eq_true] at h
+  have := h.1.1.1.1.1.1
+  rwa [coreOf_of_sugarFree hs] at this
+
+/-- … and a database of `CoreShape` has none -/
+theorem sugarFree_of_coreShape {mdb : MDb} {target : String} (h : CoreShape mdb target = true) : sugarFree mdb = true := by
+  simp only [CoreShape, Bool.and_eq_true, List.all_eq_true] at h
+  have hall := h.1.1.1.1.1.1.2
+  simp only [sugarFree, List.all_eq_true]
+  intro st hst
+  have := hall st hst
+  cases st with
+  | ax l ts =>
+    match ts, this with
+    | [.app tc [], .app n args, body], this => simp [stmtShape] at this
+    | [], _ => simp [isSugar, sugarOf]
+    | [_], _ => simp [isSugar, sugarOf]
+    | [_, _], _ => simp [isSugar, sugarOf]
+    | [.mv _, _, _], _ => simp [isSugar, sugarOf]
+    | [.app _ (_ :: _), _, _], _ => simp [isSugar, sugarOf]
+    | [.app _ [], .mv _, _], _ => simp [isSugar, sugarOf]
+    | _ :: _ :: _ :: _ :: _, _ => simp [isSugar, sugarOf]
+  | _ => simp [isSugar, sugarOf]
 
 /-! ## non-vacuity: a small database of the fragment -/
 namespace Example
